@@ -15,7 +15,16 @@ static u64 vs_cap(const vstr* s) { return vs_local(s) ? 15 : s->u.cap; }
 static u64 vs_strlen(const char* c) { u64 n = 0; while (c[n]) n++; return n; }
 static void vs_init(vstr* s) { s->p = s->u.buf; s->len = 0; s->u.buf[0] = 0; }
 static void vs_dispose(vstr* s) { if (!vs_local(s)) free(s->p); }
+#ifdef VP_FIXED_ALLOC
+/* models/string_fixed.c: heap buffers get a fixed size so that dynamic objects stay concrete-sized; a request beyond it
+ * is a reported model limit; reads between size() and the fixed size go undetected (stated per job) */
+static char* vs_alloc(u64 cap) {
+  if (cap + 1 > VP_FIXED_ALLOC) { VP_CHK("model-limit:string-longer-than-VP_FIXED_ALLOC", 0); __CPROVER_assume(0); }
+  char* p = malloc(VP_FIXED_ALLOC); __CPROVER_assume(p != 0); return p;
+}
+#else
 static char* vs_alloc(u64 cap) { char* p = malloc(cap + 1); __CPROVER_assume(p != 0); return p; }
+#endif
 static void vs_copy(char* d, const char* s, u64 n) { for (u64 i = 0; i < n; i++) d[i] = s[i]; }
 static void vs_move_fwd(char* d, const char* s, u64 n) { for (u64 i = 0; i < n; i++) d[i] = s[i]; }   /* d < s */
 static void vs_move_bwd(char* d, const char* s, u64 n) { for (u64 i = n; i > 0; i--) d[i - 1] = s[i - 1]; } /* d > s */
